@@ -21,6 +21,26 @@ func c17JudgeBytes(cs *c17Case, g *c17Go, replyB string, report bool, r *Result,
 		return
 	}
 	want := hx(string(g.out)) + " " + g.ferr
+	// `nd=<noDupA> cls=<error class equals the tree-level model's>`: the hypothesis and the conclusion of
+	// filter_bytes_error_class (audit pass 2, C17-M1) evaluated on the real input
+	if i := strings.Index(replyB, " nd="); i >= 0 {
+		extra := replyB[i+1:]
+		replyB = replyB[:i]
+		nd, cls := strings.Contains(extra, "nd=true"), strings.Contains(extra, "cls=true")
+		if report {
+			r.hist(fmt.Sprintf("bytes:nodup-%v-class-agrees-%v", nd, cls))
+		}
+		if !nd && !cs.v.hasDup() {
+			fail(Violation{Kind: "correspondence", Key: "C17:bytes:nodup-hypothesis",
+				What:   "noDupA is false on a document the generator built without a duplicated key (the hypothesis of filter_bytes_error_class would exclude ordinary inputs)",
+				Broken: "filter_bytes_error_class (hypothesis noDupA)"})
+		}
+		if nd && !cls {
+			fail(Violation{Kind: "correspondence", Key: "C17:bytes:error-class-theorem",
+				What:   "noDupA holds but the byte-level and tree-level models report different error classes (contradicts filter_bytes_error_class)",
+				Broken: "filter_bytes_error_class"})
+		}
+	}
 	if report {
 		if bytes.Equal(g.out, cs.text) {
 			r.hist("bytes:input-slice-returned")
